@@ -45,7 +45,8 @@ def gen_cases(rng, tier):
         ttl = rng.choice([0, 0, 16, 32, 48, 64, period])
         c = {"kind": kind, "limit": rng.randint(1, 4), "period": period, "ttl": ttl, "action": rng.random() < 0.3,
              "rate": rng.choice([34, 50, 67]), "min_calls": rng.randint(1, 3),
-             "advs": _times(rng, rng.randint(3, 24), period, ttl or period), "keyed": rng.random() < 0.4}
+             "advs": _times(rng, rng.randint(3, 24), period, ttl or period), "keyed": rng.random() < 0.4,
+             "spell": rng.choice(["float", "float", "int", "timedelta", "str", "callable"]), "exc_tuple": rng.random() < 0.4}
         if kind == "breaker":
             c["ttl"] = 16 * rng.choice([1, 2, 3])
         c["script"] = [rng.choice(["ok", "ok", "A", "A", "B"]) for _ in c["advs"]]
@@ -144,13 +145,22 @@ def run_impl(case):
         await cache.init()
         kind = case["kind"]
         st = {"ran": 0, "i": 0}
-        period = case["period"] * TICK
-        ttl = case["ttl"] * TICK
-        action = (lambda *a, **k: "rejected") if case["action"] else None
+        from harness.props.c02 import ttl_py
+        sp = case.get("spell", "float")
+        period = ttl_py(sp, case["period"])          # period / ttl spellings: float / int / timedelta / '2s' / callable
+        ttl = ttl_py(sp if sp != "callable" or kind == "rate" else "timedelta", case["ttl"]) if case["ttl"] else 0
+        if kind == "breaker" and sp == "callable":
+            period = ttl_py("str", case["period"])      # the breaker converts its period and ttl once, at decoration time
+
+        def _action(*a, **k):
+            # the configured action is called with the rejected call's own arguments
+            return "rejected" if (not case.get("keyed") or k.get("host") == "h1" or a[:1] == ("h1",)) else "rejected-with-wrong-arguments"
+        action = _action if case["action"] else None
         kw = {"key": "svc:{host}"} if case.get("keyed") else {}       # a key template with a placeholder: one window / breaker per host
         if kind == "rate": deco = cache.rate_limit(limit=case["limit"], period=period, ttl=ttl or None, action=action, **kw)
         elif kind == "slide": deco = cache.slice_rate_limit(limit=case["limit"], period=period, action=action, **kw)
-        else: deco = cache.circuit_breaker(errors_rate=case["rate"], period=period, ttl=ttl, min_calls=case["min_calls"], exceptions=ExcA, **kw)
+        else: deco = cache.circuit_breaker(errors_rate=case["rate"], period=period, ttl=ttl, min_calls=case["min_calls"],
+                                           exceptions=(KeyError, ExcA) if case.get("exc_tuple") else ExcA, **kw)
 
         @deco
         async def f(host="h1"):
